@@ -1,20 +1,21 @@
 (* Props/C10.v — statements only.  Private tables are isolated (model: Model/Attr.v with three tables over the
-   loader scripts regenerated from /repo into Gen/LoaderScripts.v). *)
+   loader scripts regenerated from /repo into Gen/LoaderScripts.v).  After the repairs 706f0ce, 9478875, f23caea
+   the statements hold without side conditions; what remains refuted is the sharing of the class-level default
+   Neutron object (known finding C10:neutron-default-object-shared). *)
 From Coq Require Import String List Bool NArith.
 From PT Require Import Py AttrScript LoaderScripts Attr AttrReach C09Proofs C10Proofs.
 Import ListNotations.
 Open Scope string_scope.
 
-(* public_unaffected and fresh_private_equals_public, partial: over every history of table creations (a table
-   comes with mass.init), the nine inits on the public and both private tables, reads / hasattr / calculators on
-   every table and imports - provided no init listed in private_unsafe / public_unsafe (C09) runs while its
-   group is pending and no init runs whose `assert key in table.properties` would fail - every observation of
-   the public table is what the canonical order serves, and every read of a private table that has been
-   initialised for the name's group is what the canonical order serves on the public table. *)
-Theorem C10_isolation_partial :
-  forall h, forallb ev_in10 h = true -> safe_run10 init_state h -> all_expected10 init_state h = true.
-Proof. exact isolation_partial. Qed.
-Print Assumptions C10_isolation_partial.
+(* Over every history of table creations (a table comes with mass.init), the nine inits on the public and both
+   private tables in ANY order relative to ANY use of the public table, reads / hasattr / calculators on every
+   table and imports: every observation of the public table is what the canonical order serves, and every read of
+   a private table that has been initialised for the name's group is what the canonical order serves on the
+   public table. *)
+Theorem C10_isolation :
+  forall h, forallb ev_in10 h = true -> all_expected10 init_state h = true.
+Proof. exact isolation. Qed.
+Print Assumptions C10_isolation.
 
 Theorem C10_expected_public_read : forall s a n oc, expected10 s (Read Pub a n) oc = outcome_eqb oc OSame.
 Proof. exact expected10_public_read. Qed.
@@ -27,28 +28,29 @@ Theorem C10_expected_private_read :
 Proof. exact expected10_private_read. Qed.
 Print Assumptions C10_expected_private_read.
 
-(* public_unaffected, partial: every read of the public table in such a history is the canonical one *)
-Theorem C10_public_unaffected_partial :
-  forall h i a n, forallb ev_in10 h = true -> safe_run10 init_state h ->
+(* public_unaffected: every read of the public table in such a history is the canonical one *)
+Theorem C10_public_unaffected :
+  forall h i a n, forallb ev_in10 h = true ->
     nth_error h i = Some (Read Pub a n) -> nth i (run init_state h) OOk = OSame.
-Proof. exact public_unaffected_partial. Qed.
-Print Assumptions C10_public_unaffected_partial.
+Proof. exact public_unaffected. Qed.
+Print Assumptions C10_public_unaffected.
 
-(* fresh_private_equals_public, partial: every read of a private table X that exists and has been initialised
-   for the group of the name (its properties list holds the loader's key) is the canonical one *)
-Theorem C10_fresh_private_equals_public_partial :
-  forall h i X a n, forallb ev_in10 h = true -> safe_run10 init_state h ->
+(* fresh_private_equals_public: every read of a private table X that exists and has been initialised for the
+   group of the name (its properties list holds the loader's key; for init_spectral_lines, which has no key: the
+   covered atom holds loader data) is the canonical one *)
+Theorem C10_fresh_private_equals_public :
+  forall h i X a n, forallb ev_in10 h = true ->
     nth_error h i = Some (Read X a n) -> X <> Pub -> N.eqb (group_of_name n) 0 = false ->
     exists_tab (exec init_state (firstn i h)) X = true ->
     inited (proj (group_of_name n) (exec init_state (firstn i h))) X (group_of_name n) = true ->
     nth i (run init_state h) OOk = OSame.
-Proof. exact fresh_private_equals_public_partial. Qed.
-Print Assumptions C10_fresh_private_equals_public_partial.
+Proof. exact fresh_private_equals_public. Qed.
+Print Assumptions C10_fresh_private_equals_public.
 
-(* assignments and in-place mutations: in every reachable state, an assignment on a private table T whose
-   class-level attribute is not a pending property, or a mutation of an object T owns, leaves what every other
-   table serves (every name of the group, six atoms) and the instance dictionaries of the other private table
-   unchanged *)
+(* assignments and in-place mutations: in every reachable state, ANY assignment on an atom of a private table T
+   (also while the attribute is still a pending delayed-load property), and any mutation of a served object other
+   than the class-level default Neutron, leaves what every other table serves (every name of the group, six atoms)
+   and the instance dictionaries of the other private table unchanged *)
 Theorem C10_setmut_confined :
   forall g t o, In g all_groups -> InvG10 g t -> In o (setmut_ops g) ->
     ptab_exists t (ltable o) = true -> safe_setmut g t o = true ->
@@ -70,15 +72,43 @@ Theorem C10_writes_confined :
 Proof. exact writes_confined. Qed.
 Print Assumptions C10_writes_confined.
 
-(* mutable_disjoint, partial: two tables serve the same object only if it is a module-level object or a
-   class-level default, and only for crystal_structure / neutron *)
+(* mutable_disjoint, partial: two tables serve the same object only if it is the class-level default of neutron *)
 Theorem C10_mutable_disjoint_partial :
   forall g t X Y a n o p, In g all_groups -> InvG10 g t ->
     In a read_atoms -> In n (names_of_group g) -> X <> Y ->
     served_obj g t X a n = Some o -> served_obj g t Y a n = Some p -> obj_eqb o p = true ->
-    is_shared o = true /\ (n = "crystal_structure" \/ n = "neutron").
+    is_shared o = true /\ n = "neutron".
 Proof. exact mutable_disjoint_partial. Qed.
 Print Assumptions C10_mutable_disjoint_partial.
+
+(* ... and for that object the full statement is false (known finding C10:neutron-default-object-shared) *)
+Theorem C10_mutable_disjoint_refuted :
+  run init_state (Read Pub E1 "neutron" :: priv P1 [Init "nsf.init" P1; Mut P1 E0 "neutron";
+                                                    Read Pub E0 "neutron"; Read Pub E1 "neutron"])
+  = [OSame; OOk; OOk; OOk; OOk; ODiff; OSame].
+Proof. exact mutable_disjoint_refuted. Qed.
+Print Assumptions C10_mutable_disjoint_refuted.
+
+(* the histories that broke isolation before the repairs now behave: private init before the public touch
+   (4 loaders), assignment while pending, mutation of a crystal_structure dictionary, init_spectral_lines(T)
+   keeping its units, nsf.init(T) repeated after a failed assert *)
+Theorem C10_former_witnesses_isolated :
+  run init_state (priv P2 [Init "nsf.init" P2; Read Pub E1 "neutron"]) = [OOk; OOk; OOk; OSame]
+  /\ run init_state (priv P2 [Init "covalent_radius.init" P2; Read Pub E1 "covalent_radius"]) = [OOk; OOk; OOk; OSame]
+  /\ run init_state (priv P2 [Init "crystal_structure.init" P2; Read Pub E1 "crystal_structure"]) = [OOk; OOk; OOk; OSame]
+  /\ run init_state (priv P2 [Init "xsf.init_spectral_lines" P2; Read Pub E1 "K_alpha"]) = [OOk; OOk; OOk; OSame]
+  /\ run init_state [New P1; SetA P1 E1 "neutron"; Read Pub E1 "neutron"; Read Pub E0 "neutron"; Read P1 E1 "neutron"]
+     = [OOk; OOk; OSame; OSame; OUser]
+  /\ run init_state [Read Pub E1 "crystal_structure"; New P1; Init "crystal_structure.init" P1;
+                     Mut P1 E1 "crystal_structure"; Read Pub E1 "crystal_structure"; Read P1 E1 "crystal_structure"]
+     = [OSame; OOk; OOk; OOk; OSame; OUser]
+  /\ run init_state [New P1; Init "xsf.init_spectral_lines" P1; Read P1 E1 "K_alpha"; Read P1 E1 "K_alpha_units"]
+     = [OOk; OOk; OSame; OSame]
+  /\ run init_state [Read Pub E1 "neutron"; New P1; Init "nsf.init" P1; Init "density.init" P1; Init "nsf.init" P1;
+                     Read P1 E1 "neutron"]
+     = [OSame; OOk; OErr AssertErr; OOk; OOk; OSame].
+Proof. exact former_witnesses_isolated. Qed.
+Print Assumptions C10_former_witnesses_isolated.
 
 (* the reachable sets (two private tables) are closed, contain the initial state, 405 states *)
 Theorem C10_reachable_closed :
@@ -93,40 +123,3 @@ Theorem C10_reachable_counts :
   map (fun g => length (R10 g)) all_groups = [13; 54; 54; 40; 54; 82; 54; 54]%nat.
 Proof. exact reachable_counts10. Qed.
 Print Assumptions C10_reachable_counts.
-
-(* ---- the full-strength statements are false in the faithful model *)
-Theorem C10_public_unaffected_refuted :
-  run init_state (priv P2 [Init "nsf.init" P2; Read Pub E1 "neutron"]) = [OOk; OOk; OOk; ODiff]
-  /\ run init_state (priv P2 [Init "covalent_radius.init" P2; Read Pub E1 "covalent_radius"]) = [OOk; OOk; OOk; ODiff]
-  /\ run init_state (priv P2 [Init "crystal_structure.init" P2; Read Pub E1 "crystal_structure"]) = [OOk; OOk; OOk; OErr AttrErr]
-  /\ run init_state (priv P2 [Init "xsf.init_spectral_lines" P2; Read Pub E1 "K_alpha"]) = [OOk; OOk; OOk; OErr AttrErr].
-Proof. exact public_unaffected_refuted. Qed.
-Print Assumptions C10_public_unaffected_refuted.
-
-Theorem C10_assignment_while_pending_refuted :
-  run init_state [New P1; SetA P1 E1 "neutron"; Read Pub E1 "neutron"; Read Pub E0 "neutron"]
-  = [OOk; OOk; OErr AttrErr; OErr AttrErr]
-  /\ forall g, In g [1; 2; 3; 5; 6; 7]%N ->
-       exists n, group_of_name n = g /\
-         nth 2 (run init_state [New P1; SetA P1 E1 n; Read Pub E1 n]) OSame = OErr AttrErr.
-Proof. exact assignment_while_pending_refuted. Qed.
-Print Assumptions C10_assignment_while_pending_refuted.
-
-Theorem C10_mutable_disjoint_refuted :
-  run init_state [Read Pub E1 "crystal_structure"; New P1; Init "crystal_structure.init" P1;
-                  Mut P1 E1 "crystal_structure"; Read Pub E1 "crystal_structure"; Read P1 E1 "crystal_structure"]
-  = [OSame; OOk; OOk; OOk; ODiff; OUser]
-  /\ run init_state (Read Pub E1 "neutron" :: priv P1 [Init "nsf.init" P1; Mut P1 E0 "neutron";
-                                                       Read Pub E0 "neutron"; Read Pub E1 "neutron"])
-     = [OSame; OOk; OOk; OOk; OOk; ODiff; OSame].
-Proof. exact mutable_disjoint_refuted. Qed.
-Print Assumptions C10_mutable_disjoint_refuted.
-
-Theorem C10_fresh_private_refuted :
-  run init_state [New P1; Init "xsf.init_spectral_lines" P1; Read P1 E1 "K_alpha"; Read P1 E1 "K_alpha_units"]
-  = [OOk; OOk; OSame; OErr AttrErr]
-  /\ run init_state [Read Pub E1 "neutron"; New P1; Init "nsf.init" P1; Init "density.init" P1; Init "nsf.init" P1;
-                     Read P1 E1 "neutron"]
-     = [OSame; OOk; OErr AssertErr; OOk; OOk; ODiff].
-Proof. exact fresh_private_refuted. Qed.
-Print Assumptions C10_fresh_private_refuted.
